@@ -341,7 +341,7 @@ func (db *Center) state(key string, f func(string, isaac.TempDatabase) (bool, er
 
 			switch found, err := f(key, p); {
 			case errors.Is(err, storage.ErrClosed):
-				return base.NilHeight, nil
+				return base.NilHeight, util.ErrLockedSetIgnore
 			case err != nil:
 				return base.NilHeight, err
 			case found:
